@@ -9,6 +9,11 @@ def sg(name, entry, funcs, sizes_q, sizes_t, extra=None, **kw):
     d.update(kw)
     return d
 
+def rep_inst(a, b, c, **kw):
+    # per-loop bounds: the scans over the source stop after SN+1 steps although the cursor jumps by the token length
+    us = 'qstrreplace.0:%d,qstrreplace.3:%d,qstrreplace.1:%d,qstrreplace.2:%d,qstrreplace.4:%d,strncmp.0:%d' % (a + 2, a + 2, b + 2, c + 2, c + 2, b + 2)
+    return dict(SN=a, TN=b, WN=c, unwind=max(6, a * max(c, 1) + 2), unwindset=us, **kw)
+
 GROUPS = [
     sg('trim', 'h_trim', ['qstrtrim', 'qstrtrim_head', 'qstrtrim_tail'], [3, 6], [8]),
     sg('case_rev_unchar', 'h_case_rev_unchar', ['qstrupper', 'qstrlower', 'qstrrev', 'qstrunchar'], [3, 6], [8]),
@@ -16,8 +21,9 @@ GROUPS = [
     sg('gets', 'h_gets', ['qstrgets'], [3, 5], [7]),
     dict(name='str_replace_bounded', harness='qstring/bounded.c', entry='h_replace', mode='unwind', unwind=14, props=['C19', 'C11'],
          functions=['qstrreplace'], units=[U], strength='bounded', timeout=600,
-         bound='source of exactly SN bytes (0..5), token of exactly TN (1..2), word of exactly WN (0..2) bytes (except the combination 5/2/2, which exhausts memory), all non-NUL byte values, all four modes',
-         instances=[dict(SN=a, TN=b, WN=c, unwind=max(6, a * max(c, 1) + 2), **({} if (a <= 3 and (a, b, c) != (3, 2, 2)) else {'tier': 'thorough'})) for a in range(0, 6) for b in (1, 2) for c in (0, 1, 2) if (a, b, c) != (5, 2, 2)]),
+         bound='source of exactly SN bytes (0..5), token of exactly TN (1..2), word of exactly WN (0..2, and 3 in string mode) bytes (except the combination 5/2/2, which exhausts memory), all non-NUL byte values, all four modes',
+         instances=[rep_inst(a, b, c, **({} if (a <= 3 and (a, b, c) != (3, 2, 2)) else {'tier': 'thorough'})) for a in range(0, 6) for b in (1, 2) for c in (0, 1, 2) if (a, b, c) != (5, 2, 2)] +
+                   [rep_inst(a, b, 3, TMODE=0, **({} if a <= 3 else {'tier': 'thorough'})) for a in (1, 2, 3, 4) for b in (1, 2)]),
     sg('tok', 'h_tok', ['qstrtok'], [3, 4], [5, 6]),
     sg('dup', 'h_dup', ['qstrdup_between', 'qmemdup'], [3, 5], [6], props=['C19', 'C11', 'C12']),
 ]
